@@ -77,6 +77,10 @@ retry_from_root:
 
     if (root == nullptr) { return status::OK_ROOT_IS_NULL; }
     std::string_view traverse_key_view{l_key};
+    if (l_end == scan_endpoint::INF) {
+        // an INF endpoint ignores the key passed with it: start from the leftmost border
+        traverse_key_view = std::string_view{};
+    }
 
     /**
      * prepare key_slice
